@@ -29,13 +29,34 @@ use vds::pred::{col, lit_i, lit_s, CmpOp, Expr, Pred};
 use vds::{block_on, run_catch, Env, URI};
 use vstore::MemStore;
 
+thread_local! {
+    /// column order of the table under test on this worker thread: the key column `k` first
+    /// (Lance's join-based merge path looks at the leading columns of the joined batch)
+    static KEY_FIRST: std::cell::Cell<bool> = const { std::cell::Cell::new(false) };
+}
+
 fn cols() -> Vec<(String, DataType)> {
-    vec![
+    let mut v: Vec<(String, DataType)> = vec![
         ("uid".into(), DataType::Int32),
         ("k".into(), DataType::Int32),
         ("v".into(), DataType::Utf8),
         ("w".into(), DataType::Int32),
-    ]
+    ];
+    if KEY_FIRST.with(|c| c.get()) {
+        v.swap(0, 1);
+    }
+    v
+}
+fn ix(name: &str) -> usize {
+    cols().iter().position(|c| c.0 == name).unwrap()
+}
+/// a row in the current column order
+fn mk_row(uid: Cell, k: Cell, v: Cell, w: Cell) -> Row {
+    if KEY_FIRST.with(|c| c.get()) {
+        vec![k, uid, v, w]
+    } else {
+        vec![uid, k, v, w]
+    }
 }
 fn col_names() -> Vec<String> {
     cols().into_iter().map(|c| c.0).collect()
@@ -76,6 +97,9 @@ pub struct TableSpec {
     /// none | delvec (an extra row is appended to fragment 0 and deleted again) | compact | append-compact
     prep: String,
     stable_row_ids: bool,
+    /// schema order (k, uid, v, w) instead of (uid, k, v, w)
+    #[serde(default)]
+    key_first: bool,
 }
 
 #[derive(Clone, Debug, Serialize, Deserialize)]
@@ -90,7 +114,7 @@ impl TableSpec {
         let mut out = vec![];
         for f in &self.frags {
             for (k, v) in f {
-                out.push(vec![Cell::I(uid), k.clone(), v.clone(), Cell::I(uid + 10)]);
+                out.push(mk_row(Cell::I(uid), k.clone(), v.clone(), Cell::I(uid + 10)));
                 uid += 1;
             }
         }
@@ -102,11 +126,11 @@ impl TableSpec {
         for (fi, f) in self.frags.iter().enumerate() {
             let mut rows = vec![];
             for (k, v) in f {
-                rows.push(vec![Cell::I(uid), k.clone(), v.clone(), Cell::I(uid + 10)]);
+                rows.push(mk_row(Cell::I(uid), k.clone(), v.clone(), Cell::I(uid + 10)));
                 uid += 1;
             }
             if fi == 0 && self.prep == "delvec" {
-                rows.push(vec![Cell::I(99), Cell::I(0), Cell::s("a"), Cell::I(109)]);
+                rows.push(mk_row(Cell::I(99), Cell::I(0), Cell::s("a"), Cell::I(109)));
             }
             frags.push(rows);
         }
@@ -276,6 +300,16 @@ fn merge_cases(spec: &TableSpec, quick: bool) -> Vec<Merge> {
         } else {
             vec![vec!["uid", "k", "v", "w"], vec!["uid", "v"]]
         };
+        // a full-schema source has the column order of the target
+        let schemas: Vec<Vec<&str>> = schemas
+            .into_iter()
+            .map(|mut sc| {
+                if sc.len() == 4 && spec.key_first {
+                    sc.swap(0, 1);
+                }
+                sc
+            })
+            .collect();
         for sc in &schemas {
             for keys in &batches {
                 let src: Vec<Row> = keys
@@ -391,7 +425,7 @@ fn model_with(rows: &[Row], op: &Op, null_eq_from_uid: Option<i64>) -> Expect {
             let ski = m.src_cols.iter().position(|x| *x == m.key).unwrap();
             let key_eq = |t: &Row, s: &Row| {
                 (!t[ki].is_null() && !s[ski].is_null() && t[ki] == s[ski])
-                    || (t[ki].is_null() && s[ski].is_null() && null_eq_from_uid.map(|u| t[0].as_i64().unwrap_or(-1) >= u).unwrap_or(false))
+                    || (t[ki].is_null() && s[ski].is_null() && null_eq_from_uid.map(|u| t[ix("uid")].as_i64().unwrap_or(-1) >= u).unwrap_or(false))
             };
             let mut out = vec![];
             let (mut upd, mut ins, mut del) = (0u64, 0u64, 0u64);
@@ -421,7 +455,7 @@ fn model_with(rows: &[Row], op: &Op, null_eq_from_uid: Option<i64>) -> Expect {
                             let cond = other.strip_prefix("delete_if:").unwrap();
                             // the only condition in the alphabet
                             assert_eq!(cond, "(v IS NULL)");
-                            t[2].is_null()
+                            t[ix("v")].is_null()
                         }
                     };
                     if delete {
@@ -707,6 +741,59 @@ fn judge(case: &Case, before: &[Row], obs: &Observed) -> Vec<Violation> {
             }
         }
     }
+    // composition of the two known root causes (NULL keys joined by the index-based hash join AND row
+    // presence read off the leading columns): on the column order (k, uid, ..) with an un-indexed last
+    // fragment holding a NULL key and a NULL-key source row, the joined row is taken for a source-only row
+    // that still carries the target's row address (the target row is overwritten in place / the writer
+    // panics). Attributed to the join defect that triggers it.
+    if let Op::Merge(m) = &case.op {
+        let ki = col_names().iter().position(|x| *x == m.key).unwrap();
+        let ski = m.src_cols.iter().position(|x| *x == m.key).unwrap();
+        if !v.is_empty()
+            && m.indexed
+            && m.unindexed_tail
+            && case.t.key_first
+            && m.src.iter().any(|r| r[ski].is_null())
+            && case.t.frags.last().map(|f| f.iter().any(|(k, _)| k.is_null())).unwrap_or(false)
+            && before.iter().any(|r| r[ki].is_null())
+        {
+            for x in v.iter_mut() {
+                if ["rows", "unexpected-error", "must-fail", "stats"].contains(&x.oracle.as_str()) && !x.key.ends_with("/phantom-all-null-row-written") {
+                    x.key = "merge/join-based-path/null-keys-match-in-unindexed-fragment".to_string();
+                }
+            }
+        }
+    }
+    // another known root cause: the join-based path decides "source side present" / "target side
+    // present" from the NULL-ness of the first num_keys columns of each half of the joined batch
+    // (`not_all_null(batch, 0, num_keys)`), not from the join outcome on the `on` columns. With a nullable
+    // leading column (order (k, uid, ..)) rows whose first column is NULL are invisible: such a target
+    // row is never updated / deleted-by-source, such a source row is never inserted.
+    if let Op::Merge(m) = &case.op {
+        let src_null_first = m.src.iter().any(|r| r[0].is_null());
+        if !v.is_empty() && op_kind(&case.op) == "merge/join-based-path" && case.t.key_first && (before.iter().any(|r| r[0].is_null()) || src_null_first) {
+            let visible: Vec<Row> = before.iter().filter(|r| !r[0].is_null()).cloned().collect();
+            let invisible: Vec<Row> = before.iter().filter(|r| r[0].is_null()).cloned().collect();
+            let op2 = Op::Merge(Merge { src: m.src.iter().filter(|r| !r[0].is_null()).cloned().collect(), ..m.clone() });
+            let alt = model(&visible, &op2);
+            let explained = match (&alt, &obs.result) {
+                (Expect::Rows { rows, .. }, Ok(_)) => {
+                    let mut all = rows.clone();
+                    all.extend(invisible.clone());
+                    bag(all) == bag(obs.rows.clone())
+                }
+                (Expect::Error(_), Err(_)) => bag(before.to_vec()) == bag(obs.rows.clone()),
+                _ => false,
+            };
+            if explained {
+                for x in v.iter_mut() {
+                    if ["rows", "unexpected-error", "must-fail", "stats"].contains(&x.oracle.as_str()) && !x.key.ends_with("/phantom-all-null-row-written") && !x.key.ends_with("/null-keys-match-in-unindexed-fragment") {
+                        x.key = "merge/join-based-path/row-presence-decided-by-nullness-of-first-columns".to_string();
+                    }
+                }
+            }
+        }
+    }
     v
 }
 
@@ -723,7 +810,7 @@ fn judge_inner(case: &Case, before: &[Row], obs: &Observed) -> Vec<Violation> {
     if obs.count_all != obs.rows.len() {
         push("count_rows", format!("{kind}/count_rows-vs-scan"), format!("count_rows()={} but scan returns {} rows", obs.count_all, obs.rows.len()));
     }
-    let kn = obs.rows.iter().filter(|r| r[1].is_null()).count();
+    let kn = obs.rows.iter().filter(|r| r[ix("k")].is_null()).count();
     if let Some(c) = obs.count_k_null {
         if c != kn {
             push("count_rows_filter", format!("{kind}/count_rows(k IS NULL)-vs-scan"), format!("count_rows(k IS NULL)={c} but table has {kn}"));
@@ -759,7 +846,10 @@ fn judge_inner(case: &Case, before: &[Row], obs: &Observed) -> Vec<Violation> {
                 push("error-without-effect", format!("{kind}/error-with-effect"), format!("operation failed ({}) but the table changed: before {} after {}", obs.result.as_ref().unwrap_err(), show(before), show(&obs.rows)));
             }
             if let (Expect::Rows { .. }, Err(e)) = (&exp, &obs.result) {
-                if !explicitly_unsupported(e) {
+                if e.contains("non-nullable but contains null values") && matches!(case.op, Op::Merge(_)) {
+                    // the merge tried to write an all-NULL row: a joined row without a source side was taken for a source row
+                    push("unexpected-error", format!("{kind}/phantom-all-null-row-written"), format!("{}: operation failed: {e}; table {}", op_text(&case.op), show(before)));
+                } else if !explicitly_unsupported(e) {
                     push("unexpected-error", format!("{kind}/unexpected-error/{}", err_shape(e)), format!("operation failed: {e}; table {}", show(before)));
                 }
             }
@@ -909,6 +999,9 @@ fn run_case(case: &Case, base: &MemStore, before: &[Row], st: &mut Stats) {
             }
         };
         let exp = model(before, &case.op);
+        if std::env::var("VX_DEBUG").is_ok() {
+            eprintln!("DEBUG op={} result={:?} rows={} expected={:?}", op_text(&case.op), obs.result, show(&obs.rows), exp);
+        }
         let nontrivial = match &exp {
             Expect::Rows { rows, .. } => bag(rows.clone()) != bag(before.to_vec()),
             Expect::Error(_) => true,
@@ -943,6 +1036,8 @@ struct Plan {
     /// update: all where-predicates (else 3)
     full_wheres: bool,
     merge: bool,
+    /// also run the deletes and updates on this table
+    dml: bool,
 }
 
 fn table_ops(spec: &TableSpec, ctx: &Ctx, plan: Plan) -> Vec<Op> {
@@ -955,6 +1050,9 @@ fn table_ops(spec: &TableSpec, ctx: &Ctx, plan: Plan) -> Vec<Op> {
         for m in merge_cases(spec, quick) {
             ops.push(Op::Merge(m));
         }
+    }
+    if !plan.dml {
+        return ops;
     }
     for p in &ps {
         ops.push(Op::Delete { p: p.clone() });
@@ -973,6 +1071,7 @@ fn table_ops(spec: &TableSpec, ctx: &Ctx, plan: Plan) -> Vec<Op> {
 }
 
 fn run_table(spec: &TableSpec, ctx: &Ctx, plan: Plan, budget: &Budget, st: &mut Stats) -> bool {
+    KEY_FIRST.with(|c| c.set(spec.key_first));
     let before = spec.model_rows();
     let ops = table_ops(spec, ctx, plan);
     let plain = match block_on(build_base(spec, None, false)) {
@@ -1016,6 +1115,7 @@ fn replay(ctx: &Ctx, art: &Value) -> Outcome {
     let case: Case = serde_json::from_value(art["case"].clone())
         .unwrap_or_else(|e| vcore::machinery_error(&format!("bad C12 case: {e}")));
     let mut st = new_stats();
+    KEY_FIRST.with(|c| c.set(case.t.key_first));
     let (idx, tail) = match &case.op {
         Op::Merge(m) if m.indexed => (Some(m.key.clone()), m.unindexed_tail),
         _ => (None, false),
@@ -1069,7 +1169,7 @@ pub fn run(ctx: &Ctx) -> Outcome {
         let v_plain = frags.iter().flatten().all(|(_, v)| *v == Cell::s("a"));
         let merge = v_plain && n <= ctx.tier.pick(2, 3);
         let full_wheres = !quick && is_sorted(&frags);
-        specs.push((TableSpec { frags, prep: "none".into(), stable_row_ids: false }, Plan { full_wheres, merge }));
+        specs.push((TableSpec { frags, prep: "none".into(), stable_row_ids: false, key_first: false }, Plan { full_wheres, merge, dml: true }));
     }
     // prior histories: a deletion vector in fragment 0 / compacted fragments / stable row ids
     let mut extra = vec![];
@@ -1084,7 +1184,7 @@ pub fn run(ctx: &Ctx) -> Outcome {
             n >= 2 && is_sorted(&s.frags)
         };
         if pick {
-            let p = Plan { full_wheres: false, merge: plan.merge && n <= 2 };
+            let p = Plan { full_wheres: false, merge: plan.merge && n <= 2, dml: true };
             extra.push((TableSpec { prep: "delvec".into(), ..s.clone() }, p));
             if two {
                 extra.push((TableSpec { prep: "compact".into(), ..s.clone() }, p));
@@ -1102,9 +1202,17 @@ pub fn run(ctx: &Ctx) -> Outcome {
             vec![vec![a(Cell::I(1)), a(Cell::Null)], vec![a(Cell::I(0))]],
             vec![vec![a(Cell::Null)], vec![a(Cell::I(0)), a(Cell::Null)]],
         ] {
-            specs.push((TableSpec { frags, prep: "none".into(), stable_row_ids: false }, Plan { full_wheres: false, merge: true }));
+            specs.push((TableSpec { frags, prep: "none".into(), stable_row_ids: false, key_first: false }, Plan { full_wheres: false, merge: true, dml: true }));
         }
     }
+    // the same merge space on the column order (k, uid, v, w) for every merge table whose target holds
+    // a NULL key: the join-based path classifies joined rows by the leading columns of the batch
+    let twins: Vec<(TableSpec, Plan)> = specs
+        .iter()
+        .filter(|(s, p)| p.merge && s.prep == "none" && !s.stable_row_ids && (!quick || s.frags.iter().flatten().any(|(k, _)| k.is_null())))
+        .map(|(s, p)| (TableSpec { key_first: true, ..s.clone() }, Plan { dml: !quick, ..*p }))
+        .collect();
+    specs.extend(twins);
     // tables with merge_insert first, those with a NULL key in the target before the others
     specs.sort_by_key(|(s, p)| {
         let has_null = s.frags.iter().flatten().any(|(k, _)| k.is_null());
